@@ -28,9 +28,12 @@ Proof.
   match goal with |- (if ?c then _ else _) = (if ?c' then _ else _) => change c' with c; destruct c eqn:E end;
     [reflexivity|].
   rewrite clip_eq.
-  match goal with |- (if Rltb _ ?x then _ else _) = Ok (if Rltb _ ?y then _ else _) =>
-    assert (HH : x = y) by (unfold Rdiv; ring) end.
-  rewrite HH. match goal with |- context [Rltb ?p ?q] => destruct (Rltb p q) end; reflexivity.
+  first [ match goal with |- (if Rltb _ ?x then _ else _) = Ok (if Rltb _ ?y then _ else _) =>
+            assert (HH : x = y) by (unfold Rdiv; ring) end
+        | fail 1 "the generated k_ec_smallest_angle is no longer Model_decomp.smallest_angle (clip to [-1,1], arccos in degrees, 180 - angle above 90) plus the ZeroDivisionError leaf" ].
+  rewrite HH. match goal with |- context [Rltb ?p ?q] => destruct (Rltb p q) end;
+    first [ reflexivity
+          | fail 1 "the generated k_ec_smallest_angle is no longer Model_decomp.smallest_angle (clip to [-1,1], arccos in degrees, 180 - angle above 90) plus the ZeroDivisionError leaf" ].
 Qed.
 
 Lemma dot3_col (Ed Ev : arr NumR) i j :
